@@ -162,23 +162,6 @@ theorem putSyncedTo_status (s s' : Store) (blk : BlockMeta) (h : putSyncedTo s b
   all_goals (try (subst h; rfl))
 
 
-/-- the loop of onRelevantBlockConnected over the relevant transactions of a block -/
-theorem relevantLoop_status (c : Ctx) (blk : BlockMeta) (rel : List TxRec) (s0 : Store) (b0 : AMap.T Wid Nat)
-    (v : Store × AMap.T Wid Nat)
-    (h : (forIn rel (s0, b0) fun tr (st : Store × AMap.T Wid Nat) =>
-        match addRelevantMined c.p c.own st.fst st.snd tr blk with
-        | Except.error err => Except.error err
-        | Except.ok v => Except.ok (ForInStep.yield (v.fst, v.snd))) = .ok v) : v.1.status = s0.status := by
-  refine forIn_inv (fun (r : Store × AMap.T Wid Nat) => r.1.status = s0.status) _ _ _ _ rfl ?_ h
-  intro a b r hb hfa
-  split at hfa
-  · cases hfa
-  · rename_i v' hv
-    cases hfa
-    simp only
-    rw [addRelevantMined_status c.p c.own b.1 v'.1 b.2 v'.2 a blk (by rw [hv])]
-    exact hb
-
 /-- **filterBlock never touches the wallet-status bucket** (filterBlock + onRelevantBlockConnected + SetSyncedTo) -/
 theorem filterBlock_status (c : Ctx) (s s' : Store) (ready : List Wid) (b : Block) (conf : List TxId)
     (h : filterBlock c s ready b = .ok (s', conf)) : s'.status = s.status := by
@@ -196,7 +179,16 @@ theorem filterBlock_status (c : Ctx) (s s' : Store) (ready : List Wid) (b : Bloc
           · split at h
             · cases h
             · rename_i v1 hv1
-              have h1 := relevantLoop_status c ⟨b.height, b.id⟩ v.1 s _ v1 hv1
+              have h1 : v1.1.status = s.status := by
+                refine forIn_inv (fun (r : Store × AMap.T Wid Nat) => r.1.status = s.status) _ _ _ _ rfl ?_ hv1
+                intro a st r hb hfa
+                split at hfa
+                · cases hfa
+                · rename_i v' hv'
+                  cases hfa
+                  simp only
+                  rw [addRelevantMined_status c.p c.own st.1 v'.1 st.2 v'.2 a ⟨b.height, b.id⟩ (by rw [hv'])]
+                  exact hb
               split at h
               · cases h
               · rename_i v2 hv2
